@@ -88,14 +88,17 @@ def mutate(cx, kind):
     if kind == "trunc":
         return ["trunc=%d" % r.choice([1, 2, 5, 11, 12, 13, 16])]
     if kind == "cookiebad":
-        return ["cookie=bad"]
+        # bad: first byte inverted; bad<k>: a single bit of byte k of the client cookie (boundary of the
+        # 8 byte comparison)
+        return ["cookie=%s" % r.choice(["bad", "bad0", "bad3", "bad4", "bad7", "bad%d" % r.randint(0, 7)])]
     if kind == "cookienone":
         return ["cookie=none"]
     if kind == "cookieecho":
         return ["cookie=echo"]
     if kind == "cookieforeign":
         return ["cookie=%s" % r.choice(["0102030405060708aabbccddeeff0011", "0102030405060708", "01020304",
-                                        "00" * 41, "echo:" + "ab" * 32, "echo:01"])]
+                                        "00" * 41, "00" * 40, "00" * 7, "echo:" + "ab" * 32, "echo:01",
+                                        "echo:" + "cd" * 31])]
     if kind == "opcode":
         return ["opcode=%d" % r.choice([1, 2, 4, 5])]
     if kind == "tc":
@@ -380,7 +383,7 @@ def sc_cookie(cx):
                                     "from", "id+", "servfail"])
         if r.random() < 0.3:
             cx.op("proc")
-        rsp(cx, "xl", cookie=r.choice(["echo", "echo", "echo", "none", "bad"]))
+        rsp(cx, "xl", cookie=r.choice(["echo", "echo", "echo", "none", "bad", "bad7", "bad4"]))
         cx.op("proc")
         if r.random() < 0.3:
             rsp(cx, "xl", ["badcookie"])
